@@ -110,6 +110,13 @@ def gen(r, fp: Dict[str, Any]) -> Dict[str, Any]:
         handlers[other][0].update({"dur": 0.6, "steps": 0, "late_fail": True})
         sc["exit_at"] = 50.0
     sc["wrap_factory_in_handler"] = r.random() < 0.25
+    x_ = r.random()
+    if x_ < 0.12:
+        sc["rerun_after"] = True
+    elif x_ < 0.24 and fp["exit"] != "exhausted":
+        sc["rerun_at"] = round(at * r.choice([0.3, 0.7]), 3)
+    if fp["exit"] == "stop_outside" and r.random() < 0.3:
+        sc["pre_run_stop"] = True
     # an idle handler may raise too: that is neither a producer's error nor the caller's cancellation
     sc["idle_fail"] = [n for n in range(8) if r.random() < 0.25] if sc["idle"] else []
     if fp["exit"] == "handler_error":
@@ -136,6 +143,8 @@ class Run:
         self.idle_while_busy = 0
         self.idle_failures = 0
         self.factory_wrapped = False
+        self.second_run = None
+        self.stop_repeated_at = None
         self.raised_by_producer: Dict[int, BaseException] = {}
         self.stop_requested_at: Optional[float] = None
         self.cancel_requested_at: Optional[float] = None
@@ -386,7 +395,25 @@ class Run:
             self.build(loop)
 
             async def main():
+                if sc.get("pre_run_stop"):
+                    # stop() was already called once before run() (a signal that arrived early): the request made while
+                    # running is the one that must end the run
+                    self.d.stop()
+                    self.stop_requested_at = 0.0
                 task = asyncio.ensure_future(self.d.run(stop_signals=[]))
+
+                async def second_run():
+                    # somebody calls run() again while it is running: it is refused, and the live run is not disturbed
+                    await asyncio.sleep(sc["rerun_at"])
+                    if task.done():
+                        return
+                    try:
+                        await self.d.run(stop_signals=[])
+                        self.second_run = "returned"
+                    except AssertionError:
+                        self.second_run = "refused"
+                    except BaseException as ex:  # noqa
+                        self.second_run = f"raised {type(ex).__name__}"
 
                 async def outside():
                     await asyncio.sleep(sc["exit_at"])
@@ -394,6 +421,7 @@ class Run:
                         return
                     if sc["exit"] == "stop_outside":
                         self.stop_requested_at = self.vt() if self.stop_requested_at is None else self.stop_requested_at
+                        self.stop_repeated_at = self.vt()
                         self.d.stop()
                     elif sc["exit"] == "cancel":
                         self.cancel_requested_at = self.vt()
@@ -408,6 +436,7 @@ class Run:
 
                 o = asyncio.ensure_future(outside()) if sc["exit"] in ("stop_outside", "cancel") else None
                 w = asyncio.ensure_future(watchdog())
+                r2 = asyncio.ensure_future(second_run()) if sc.get("rerun_at") is not None else None
                 try:
                     await task
                     self.outcome = ("returned", None)
@@ -416,10 +445,19 @@ class Run:
                 except BaseException as ex:  # noqa
                     self.outcome = ("raised", ex)
                 self.ended_at = self.vt()
-                for t in (o, w):
+                for t in (o, w, r2):
                     if t is not None:
                         t.cancel()
                 await asyncio.sleep(0)
+                if sc.get("rerun_after"):
+                    # run() once more after the run is over: refused, and nothing is finalised a second time
+                    try:
+                        await asyncio.wait_for(self.d.run(stop_signals=[]), timeout=50)
+                        self.second_run = "returned"
+                    except AssertionError:
+                        self.second_run = "refused"
+                    except BaseException as ex:  # noqa
+                        self.second_run = f"raised {type(ex).__name__}"
 
             self.watchdog_fired = False
             loop.run_until_complete(main())
@@ -499,6 +537,8 @@ class Run:
         if self.cancel_requested_at is not None and first != "cancel":
             ambiguous = True
             self.double_fault = True
+        if sc.get("pre_run_stop"):
+            ambiguous = True      # a stop requested before run() and whatever ends the run later: either outcome
         if kind == "raised":
             if not any(ex is e for e in self.raised_by_producer.values()):
                 out.append(("internal_error_from_run", f"run() raised {type(ex).__name__}: {ex} (exit path {sc['exit']}, "
@@ -517,6 +557,9 @@ class Run:
             if first == "cancel" and not ambiguous:
                 out.append(("cancellation_swallowed", "run() returned although it was cancelled from outside"))
         # 4. promptness (virtual seconds)
+        if sc.get("pre_run_stop"):
+            # the early request found nothing to cancel; promptness is owed to the request made while running
+            causes = [(self.stop_repeated_at, "stop")] if self.stop_repeated_at is not None else []
         if causes and self.ended_at is not None and first != "exhausted":
             budget = sum(p["fin_dur"] for p in sc["producers"]) + 1.0 + max([p.get("cancel_dur", 0.0) for p in sc["producers"]])
             if self.ended_at - causes[0][0] > budget + 1e-6:
@@ -566,6 +609,7 @@ def evaluate(sc: Dict[str, Any], res: ShardResult) -> Run:
     res.count("exit_" + sc["exit"])
     res.count("double_fault_runs", 1 if run.double_fault else 0)
     res.count("idle_handler_failures", run.idle_failures)
+    res.count("second_run_" + str(run.second_run))
     res.count("watchdog_ended_runs", 1 if run.watchdog_fired else 0)
     if run.max_inflight >= sc["max_concurrent"]:
         res.count("pool_saturated_runs")
